@@ -866,17 +866,6 @@ theorem fmmu_windows_disjoint_partial (cfgs : List Cfg) (f0 : List Nat) (sched :
   · right; exact decide_eq_true (by omega)
 /-! ### the invariant behind `installed_while_running_partial` -/
 
-/-- the start section of `run`: everything before `LockFile(...)` -/
-def _root_.Ebv.Parallel.Pc.startSec : Pc → Bool
-  | .mkdtemp | .openTmp | .rename | .rmtreeTmp | .openLock | .objGet1 | .objGet2 | .excRemove
-  | .createMap | .removeOld | .attach | .objPin | .excRmtree => true
-  | _ => false
-
-/-- the last leaver after its successful `rmdir`, before it has finished `remove(programs)` -/
-def _root_.Ebv.Parallel.Pc.lateExit : Pc → Bool
-  | .detach | .removePin => true
-  | _ => false
-
 /-- member that is past the start section and has not begun to leave -/
 def _root_.Ebv.Parallel.Pc.post : Pc → Bool
   | .mbxOpen | .mbxWrite | .mbxReopen | .fmOpen | .fmWrite | .fmLock | .fmRead | .fmFix | .fmTrunc | .fmSet
@@ -886,18 +875,6 @@ def _root_.Ebv.Parallel.Pc.post : Pc → Bool
 def _root_.Ebv.Parallel.Pc.hasTable : Pc → Bool
   | .removeOld | .attach | .objPin => true
   | _ => false
-
-def noneLate (s : Sys) : Bool := (List.range s.procs.length).all fun j => !(getP s j).pc.lateExit
-
-/-- the step is outside the two race windows: no operation of a start section while a last leaver is between
-`rmdir` and `remove(programs)`, and no `rename` that succeeds while an old programs file exists -/
-def okStep (s : Sys) (i : Nat) : Bool :=
-  (!(getP s i).pc.startSec || noneLate s) &&
-  (!((getP s i).pc == .rename && (s.lockdir == none || s.lockdir == some [])) || s.pin == none)
-
-def Quiet (s : Sys) : List Nat → Bool
-  | [] => true
-  | i :: r => okStep s i && Quiet (step s i) r
 
 structure WI (s : Sys) : Prop where
   instPin : ∀ i, i < s.procs.length → (getP s i).pc.install = true → s.pin = none
@@ -1148,6 +1125,40 @@ theorem installed_while_running_stale_refuted :
     ¬ InstalledWhileRunning (run (init staleCfgs none) staleSched) := by
   intro h
   have := installedB_sound _ h
+  revert this
+  decide +kernel
+
+theorem ethertypesDistinctB_sound (s : Sys) (h : EthertypesDistinct s) : ethertypesDistinctB s = true := by
+  unfold ethertypesDistinctB allPairs
+  rw [List.all_eq_true]
+  intro i hi
+  rw [List.all_eq_true]
+  intro j hj
+  have hi' : i < s.procs.length := List.mem_range.mp hi
+  have hj' : j < s.procs.length := List.mem_range.mp hj
+  by_cases hij : i = j
+  · simp [hij]
+  · cases hmi : (getP s i).pc.member
+    · simp [hmi]
+    · cases hmj : (getP s j).pc.member
+      · simp [hmj]
+      · simp [hij, h i j hi' hj' hij hmi hmj]
+
+/-- without `NoFault` even the ethertype clause fails: the installer's `except` path runs
+`shutil.rmtree(lockdir)` and with it removes the member files of participants that joined meanwhile.
+Participant 0's attach fails after participant 1 (ethertype 12288) joined; participant 2 starts a new
+session; participant 1's second `obj_get` now succeeds and it runs without a member file; participant 3
+draws 12288 and gets it. -/
+def faultCfgs : List Cfg :=
+  [{ attachFails := true }, { etDraws := [12288] }, {}, { etDraws := [12288], fmDraws := [3] }]
+def faultSched : List Nat :=
+  List.replicate 5 0 ++ List.replicate 7 1 ++ List.replicate 2 0 ++ List.replicate 7 2 ++
+    List.replicate 5 1 ++ List.replicate 14 3
+
+theorem ethertypes_distinct_fault_refuted :
+    ¬ EthertypesDistinct (run (init faultCfgs none) faultSched) := by
+  intro h
+  have := ethertypesDistinctB_sound _ h
   revert this
   decide +kernel
 
